@@ -46,6 +46,7 @@ def consts(**over) -> dict[str, str]:
 
 
 MC_MOD = '---- MODULE MC ----\nEXTENDS Shm\nMC_Size == [a |-> 2, b |-> 2, c |-> 3]\n====\n'
+MC_MOD3 = '---- MODULE MC ----\nEXTENDS Shm\nMC_Size == [a |-> 1, b |-> 1, c |-> 2]\n====\n'
 MC_MOD2 = '---- MODULE MC ----\nEXTENDS Shm\nMC_Size == [a |-> 1, b |-> 2]\n====\n'
 
 
@@ -121,7 +122,18 @@ from pathlib import Path
 files, sizes, cap, out = json.load(open(sys.argv[1][1:])) if sys.argv[1].startswith("@") else json.loads(sys.argv[1]), json.loads(sys.argv[2]), int(sys.argv[3]), sys.argv[4]
 res = []
 for f in files:
-    beh = tlc.parse_sim_file(Path(f)) if f.endswith(".json") is False else [tuple(x) for x in json.load(open(f))]
+    if f.endswith(".json"):        # a TLC counterexample trace stored as JSON (lists stand for tuples)
+        def untuple(x):
+            if isinstance(x, list): return tuple(untuple(i) for i in x)
+            if isinstance(x, dict): return {k: untuple(v) for k, v in x.items()}
+            return x
+        beh = []
+        for lab, st in json.load(open(f)):
+            st = untuple(st)
+            st["jobs"] = list(st["jobs"]) if not isinstance(st["jobs"], dict) else []
+            beh.append((lab, st))
+    else:
+        beh = tlc.parse_sim_file(Path(f))
     # a store named after a long host name (Executor: "sCasc" + host; here a 19-character fully qualified node name)
     r = shm.replay(beh, sizes, cap, fast_disk="/sim_fast" in f, prefix="sCascnode-1234.cluster01" if "/sim_longname" in f else "t",
                    configured=cap + 3 if "/sim_trimmed" in f else None)
@@ -129,8 +141,28 @@ for f in files:
     r["actions"] = [list(map(str, s["last"])) for _, s in beh[1:]]
     r["tainted"] = [sorted(s["tainted"]) for _, s in beh[1:]]
     res.append(r)
+if res:
+    res[0]["together_runs"] = shm.Driver.together_runs
 json.dump(res, open(out, "w"))
 '''
+
+
+MC_PAIR = ('---- MODULE MC ----\nEXTENDS Shm\nMC_Size == [a |-> 1, b |-> 1, c |-> 2]\nVARIABLE prevAct\n'
+           'SpecH == Init /\\ prevAct = <<>> /\\ [][Next /\\ prevAct\' = last]_<<vars, prevAct>>\n'
+           'NoPair == ~(last[1] = "InDone" /\\ last[3] = "ok" /\\ prevAct # <<>> /\\ prevAct[1] = "InDone" /\\ prevAct[3] = "ok" '
+           '/\\ prevAct[2] # last[2])\n====\n')
+
+
+def _directed_pair_page_in(scratch: Path) -> list[Path]:
+    cfg = tlc.cfg_text(spec="SpecH", constants=consts(Cap="2", MaxClock="12", MaxReaders="1"), invariants=["NoPair"])
+    d = tlc.stage(scratch, "directed_pairin", ["Shm", "ShmAcct"], {"MC.tla": MC_PAIR, "MC.cfg": cfg})
+    r = tlc.check(d, "MC", workers=4, timeout=900, light=False, heap="6g", deadlock=False)
+    if "NoPair" not in r.violated:
+        raise MachineryError("TLC found no behaviour with two page-ins in a row:\n" + r.out[-1500:])
+    trace = tlc.parse_error_trace(r.out)
+    f = scratch / "sim_directed_pairin.json"
+    f.write_text(json.dumps([[lab, {k: v for k, v in st.items() if k != "prevAct"}] for lab, st in trace], default=_jsonable))
+    return [f]
 
 
 def _replay_files(files: list[Path], sizes: dict, cap: int, out: Path) -> list[dict]:
@@ -231,6 +263,9 @@ def run_engine(ctx: Ctx) -> dict:
     # the "fast disk" schedule: page-out jobs run to their end inside the submit (Shm!FastDiskSpec)
     sims += [(f, KEYS, CAP) for f in _simulate(scratch, "fast", consts(AllowStale="TRUE", MaxClock="30", MaxReaders="3"), num // 2, 40,
                                                ctx.seed + 14, spec="FastDiskSpec")]
+    # directed behaviour: TLC's shortest path to two successful page-ins of different keys in a row (the replay runs them as
+    # concurrent jobs whose reads interleave chunk by chunk, as the 4-thread reader pool may)
+    sims += [(f, {"a": 1, "b": 1, "c": 2}, 2) for f in _directed_pair_page_in(scratch)]
     # a store configured with more capacity than /dev/shm offers works with what there is (the model's Cap)
     sims += [(f, KEYS, CAP) for f in _simulate(scratch, "trimmed", consts(MaxClock="30"), max(num // 4, 50), 30, ctx.seed + 16)]
     sims += [(f, KEYS, CAP) for f in _simulate(scratch, "longname", consts(MaxClock="30"), max(num // 4, 50), 30, ctx.seed + 15)]
@@ -275,6 +310,7 @@ def run_engine(ctx: Ctx) -> dict:
         m["trace"] = [[lab, _strip(st)] for lab, st in m["trace"]][:40]
     res["replays"] = [{k: v for k, v in r.items() if k != "observed"} for r in replays]
     res["replay_steps"] = sum(r["steps"] for r in replays)
+    res["concurrent_page_in_runs"] = sum(r.get("together_runs", 0) for r in replays)
     res["sample"] = replays[0]["actions"][:12] if replays else []
     res["wall"] = round(time.time() - t0, 1)
     ctx.log(f"shm engine: {len(replays)} behaviours ({res['replay_steps']} steps) replayed into the real Manager in {time.time()-t1:.0f}s")
@@ -325,7 +361,7 @@ def report(ctx: Ctx, pid: str) -> None:
         "model_runs": [{"name": m["name"], "distinct": m["distinct"], "depth": m["depth"], "constants": m["constants"]}
                        for m in res["mc"]],
         "traces_validated_against_impl": len(res["replays"]), "replayed_steps": res["replay_steps"],
-        "invariants": sorted(mine), "engine_wall_s": res["wall"],
+        "invariants": sorted(mine), "engine_wall_s": res["wall"], "concurrent_page_in_runs": res.get("concurrent_page_in_runs", 0),
         "rule": "TLC exhausts spec/Shm.tla for the listed constants (3 keys, sizes 2/2/3, capacity 4, <=2 readers, bounded "
                 "clock; 2 keys deeper); TLC -simulate behaviours are stepped through the real Manager + real Disk code "
                 "(fake segments/clock, page-out jobs stopped at the pageout_one lock) with equality of status, free "
